@@ -48,6 +48,10 @@ type Request struct {
 	// wire. The serve loop owns the lifecycle and detaches at the end of
 	// the call.
 	Shm *ShmSegment
+	// connShm is the segment attached on this connection (advertised on this
+	// or on an earlier request), whether or not this request engaged it.
+	// Used only to resolve pointer batches the client sends.
+	connShm *ShmSegment
 }
 
 // ReadRequest reads one complete IPC stream from the reader and extracts
